@@ -161,9 +161,11 @@ const (
 	TFire
 	TQuiesce
 	TYield
+	TTimerOp
+	TNow
 )
 
-var tkindNames = [...]string{"send", "send-closed!", "recv", "recv-closed", "rendezvous", "default", "close", "cancel", "fire", "quiesce", "yield"}
+var tkindNames = [...]string{"send", "send-closed!", "recv", "recv-closed", "rendezvous", "default", "close", "cancel", "fire", "quiesce", "yield", "timer-op", "now"}
 
 type Trans struct {
 	kind  TKind
@@ -233,6 +235,12 @@ func (in *Interp) enabled() []Trans {
 			continue
 		case PYield:
 			ts = append(ts, Trans{kind: TYield, g: g, ci: -1})
+			continue
+		case PTimer:
+			ts = append(ts, Trans{kind: TTimerOp, g: g, ci: -1, timer: g.pend.timer})
+			continue
+		case PNow:
+			ts = append(ts, Trans{kind: TNow, g: g, ci: -1})
 			continue
 		case PQuiesce:
 			quiescers = append(quiescers, g)
@@ -397,7 +405,8 @@ func (in *Interp) fire(t Trans) {
 		in.cancelCtx(p.ctx, in.canceledErr())
 		in.tick(t.g)
 		in.complete(t.g, -1, nil, false, false)
-	case TYield:
+	case TYield, TTimerOp, TNow:
+		in.cur = t.g
 		in.complete(t.g, -1, nil, false, false)
 	case TQuiesce:
 		for _, o := range in.st.gs {
@@ -484,6 +493,13 @@ func (in *Interp) runPath(entry *ssa.Function) (out PathOutcome) {
 		}
 		ts := in.enabled()
 		if len(ts) == 0 {
+			for _, t := range in.st.timers {
+				if t.Armed {
+					// only a timer could make progress and the harness' fire budget is used up: bounded out
+					in.stats.Pruned++
+					return PathOutcome{Kind: "end", Msg: "timer fire budget exhausted"}
+				}
+			}
 			in.cur = main
 			return PathOutcome{Kind: "deadlock", Msg: "no transition enabled and harness not finished", Stacks: in.allStacks()}
 		}
@@ -684,6 +700,23 @@ func transChans(t Trans) []*Chan {
 		}
 		return cs
 	}
+	if t.kind == TCancel && t.g != nil && t.g.pend != nil && t.g.pend.ctx != nil {
+		var cs []*Chan
+		var walk func(c *CtxObj)
+		walk = func(c *CtxObj) {
+			if c.Done != nil {
+				cs = append(cs, c.Done)
+			}
+			for _, k := range c.Children {
+				walk(k)
+			}
+		}
+		walk(t.g.pend.ctx)
+		return cs
+	}
+	if t.kind == TFire && t.timer != nil && t.timer.C != nil {
+		return []*Chan{t.timer.C}
+	}
 	if t.ch != nil {
 		return []*Chan{t.ch}
 	}
@@ -696,9 +729,18 @@ func transChans(t Trans) []*Chan {
 // detects (vector clocks) and reports instead of assuming their absence.
 func indep(a, b Trans) bool {
 	for _, k := range []TKind{a.kind, b.kind} {
-		if k == TFire || k == TQuiesce || k == TCancel || k == TSendClosed {
+		if k == TQuiesce || k == TSendClosed {
 			return false
 		}
+	}
+	// the logical clock and timer state: fires conflict with timer operations and clock reads
+	isFire := func(t Trans) bool { return t.kind == TFire }
+	clk := func(t Trans) bool { return t.kind == TTimerOp || t.kind == TNow }
+	if (isFire(a) && clk(b)) || (isFire(b) && clk(a)) {
+		return false
+	}
+	if a.kind == TTimerOp && b.kind == TTimerOp && a.timer != nil && a.timer == b.timer {
+		return false
 	}
 	gs := func(t Trans) [2]*G { return [2]*G{t.g, t.g2} }
 	for _, x := range gs(a) {
